@@ -4,6 +4,8 @@ import (
 	"errors"
 	"strings"
 
+	cerrors "github.com/pip-services3-gox/pip-services3-commons-gox/errors"
+
 	"github.com/pip-services3-gox/pip-services3-expressions-gox/calculator/functions"
 	"github.com/pip-services3-gox/pip-services3-expressions-gox/calculator/variables"
 	sio "github.com/pip-services3-gox/pip-services3-expressions-gox/io"
@@ -88,8 +90,55 @@ var ErrInjected = errors.New("injected fault")
 type FnFault struct {
 	Kind  string // fn_error | fn_panic | ""
 	At    int    // 1-based invocation index
+	Msg   int    // which failure text / error type (see FailureText)
 	Calls int
 	Fired bool
+}
+
+type customError struct{ s string }
+
+func (e *customError) Error() string { return e.s }
+
+// FailureText varies what a failing delegate says: the text and type of a
+// caller's error or panic value are part of the fault space.
+func FailureText(k int) string {
+	if k < 0 {
+		k = -k
+	}
+	switch k % 8 {
+	case 0:
+		return "injected fault"
+	case 1:
+		return ""
+	case 2:
+		return strings.Repeat("long failure text ", 12) // 216 bytes, ASCII
+	case 3:
+		return strings.Repeat("ошибка вычисления ", 6) // 108 runes, 198 bytes
+	case 4:
+		return strings.Repeat("計算に失敗しました。", 9) // 90 runes, 270 bytes
+	case 5:
+		return "100% %s %d %v {{x}} \"quoted\"\n second line"
+	case 6:
+		return strings.Repeat("x", 5000)
+	default:
+		return "é"
+	}
+}
+
+// FailureError builds the error value for a failure text: plain error, a
+// custom error type, or an ApplicationError as the library's own errors are.
+func FailureError(k int) error {
+	if k < 0 {
+		k = -k
+	}
+	switch (k / 8) % 3 {
+	case 0:
+		return errors.New(FailureText(k))
+	case 1:
+		return &customError{FailureText(k)}
+	default:
+		return cerrors.NewBadRequestError("", "INJECTED", FailureText(k))
+	}
 }
 
 func (f *FnFault) Delegate(inner functions.FunctionCalculator) functions.FunctionCalculator {
@@ -98,9 +147,12 @@ func (f *FnFault) Delegate(inner functions.FunctionCalculator) functions.Functio
 		if f.Kind != "" && f.Calls == f.At {
 			f.Fired = true
 			if f.Kind == "fn_panic" {
-				panic("injected delegate panic")
+				if f.Msg%16 >= 8 {
+					panic(FailureError(f.Msg)) // an error value as panic value
+				}
+				panic(FailureText(f.Msg))
 			}
-			return nil, ErrInjected
+			return nil, FailureError(f.Msg)
 		}
 		if inner != nil {
 			return inner(params, ops)
@@ -123,7 +175,7 @@ func (p *PlainFaultyFunction) Calculate(params []*variants.Variant, ops variants
 	p.F.Calls++
 	if p.F.Kind != "" && p.F.Calls == p.F.At {
 		p.F.Fired = true
-		return nil, ErrInjected
+		return nil, FailureError(p.F.Msg)
 	}
 	if len(params) > 0 {
 		return params[0], nil
